@@ -51,6 +51,15 @@ def _sites(p):
                     old = a[1]
                     if old in gen._HASH_TWINS and ch % 2:
                         a[1] = gen._HASH_TWINS[old]
+                    elif ch % 5 == 2 and abs(old) < 1e300:
+                        # the nearest different number: one float step away (for an int, the
+                        # float next to it), or a relative change of 1e-13
+                        import math
+
+                        f = float(old)
+                        if abs(f) > 2.0**53:
+                            return False
+                        a[1] = math.nextafter(f, math.inf if ch % 2 else -math.inf) if (ch // 5) % 2 else f * (1 + 1e-13) + (1e-300 if f == 0 else 0.0)
                     else:
                         a[1] = old + 1 + (ch % 3) if is_int(old) else (old * 2 + 1.5 if abs(old) < 1e300 else 0.5)
                     return a[1] != old
@@ -125,6 +134,11 @@ def _sites(p):
 
         def letv(ch, l=l):
             old = l[1]
+            if not is_int(old) and ch % 3 == 1 and abs(old) < 1e300:
+                import math
+
+                l[1] = math.nextafter(old, math.inf if ch % 2 else -math.inf)
+                return l[1] != old
             l[1] = old + 1 if is_int(old) else (old + 0.5 if abs(old) < 1e15 else old * 2)
             return l[1] != old
 
